@@ -98,8 +98,7 @@ func encoderTable(f *ssa.Function) ([]encClass, string) {
 					format, _ := constString(call.Call.Args[1])
 					vs := varargValues(call.Call.Args[2])
 					if len(vs) == 1 && stripConv(vs[0]) == ch {
-						switch format {
-						case "+%02X", "%02X":
+						if fprintfHexFormat(format) != nil {
 							return ivVal{}, "F:" + format
 						}
 					}
@@ -123,7 +122,78 @@ func encoderTable(f *ssa.Function) ([]encClass, string) {
 func (e encClass) raw() bool { return len(e.events) == 1 && e.events[0] == "RAW" }
 
 // escape shape: introducer constants, zero padding, HEX, trailer
+// fprintfHexFormat: a constant format made of literal ASCII characters around exactly one upper-case hex verb
+// (%X or %02X) is expanded into the primitive events of the same output.
+func fprintfHexFormat(format string) []string {
+	var ev []string
+	verbs := 0
+	for i := 0; i < len(format); i++ {
+		ch := format[i]
+		if ch != '%' {
+			if ch >= 0x80 {
+				return nil
+			}
+			ev = append(ev, fmt.Sprintf("C:%d", ch))
+			continue
+		}
+		rest := format[i:]
+		switch {
+		case strings.HasPrefix(rest, "%%"):
+			ev = append(ev, "C:37")
+			i++
+		case strings.HasPrefix(rest, "%02X"):
+			ev = append(ev, "HEX2")
+			verbs++
+			i += 3
+		case strings.HasPrefix(rest, "%X"):
+			ev = append(ev, "HEX")
+			verbs++
+			i++
+		default:
+			return nil
+		}
+	}
+	if verbs != 1 {
+		return nil
+	}
+	return ev
+}
+
+// expanded: the class's events with Fprintf formats replaced by their primitive events.
+func (e encClass) expanded() []string {
+	var out []string
+	for _, x := range e.events {
+		if strings.HasPrefix(x, "F:") {
+			if ev := fprintfHexFormat(x[2:]); ev != nil {
+				out = append(out, ev...)
+				continue
+			}
+		}
+		out = append(out, x)
+	}
+	return out
+}
+
+// width: number of hex digits written for v (HEX2 pads to two).
+func (e encClass) width(v int64) int {
+	_, zeros, hex, _ := e.escape()
+	for _, x := range e.expanded() {
+		if x == "HEX2" {
+			if hexDigits(v) > 2 {
+				return hexDigits(v)
+			}
+			return 2
+		}
+	}
+	w := zeros
+	if hex {
+		w += hexDigits(v)
+	}
+	return w
+}
+
 func (e encClass) escape() (intro string, zeros int, hex bool, trailer string) {
+	e = encClass{lo: e.lo, hi: e.hi, events: e.expanded(), und: e.und}
 	i := 0
 	var in []string
 	for ; i < len(e.events) && strings.HasPrefix(e.events[i], "C:") && e.events[i] != "C:48"; i++ {
@@ -132,7 +202,7 @@ func (e encClass) escape() (intro string, zeros int, hex bool, trailer string) {
 	for ; i < len(e.events) && e.events[i] == "C:48"; i++ {
 		zeros++
 	}
-	if i < len(e.events) && e.events[i] == "HEX" {
+	if i < len(e.events) && (e.events[i] == "HEX" || e.events[i] == "HEX2") {
 		hex = true
 		i++
 	}
@@ -583,19 +653,9 @@ func runC14(c *Ctx) {
 			}
 			intro, zeros, hex, trailer := ec.escape()
 			for v := ec.lo; v <= ec.hi && v <= 0x7F; v++ {
-				w := zeros
-				if hex {
-					w += hexDigits(v)
-				}
-				for _, e := range ec.events {
-					if e == "F:+%02X" || e == "F:%02X" {
-						w = 2
-						if hexDigits(v) > 2 {
-							w = hexDigits(v)
-						}
-					}
-				}
-				if (intro != "43" && !strings.Contains(strings.Join(ec.events, ","), "F:+%02X")) || trailer != "" || w != 2 {
+				w := ec.width(v)
+				_, _ = zeros, hex
+				if intro != "43" || trailer != "" || w != 2 {
 					bad = fmt.Sprintf("U+%04X is escaped as %v with %d hex digit(s); decodeXtext accepts only '+' followed by exactly two", v, ec.events, w)
 					break
 				}
@@ -642,7 +702,8 @@ func runC14(c *Ctx) {
 						continue
 					}
 					nChecked++
-					k := zeros + hexDigits(v)
+					k := ec.width(v)
+					_ = zeros
 					ok, why := dec.accepts(k, v)
 					if !ok {
 						bad = fmt.Sprintf("U+%04X is escaped with %d hex digits, which decodeUTF8AddrXtext rejects %s", v, k, why)
